@@ -54,7 +54,7 @@ CLAIMED = {
         'the model type is the documented function of (variable of integration?, NLA system?) and of (under-, over-constrained?); state/variable indices start at 0, advance once per created variable and are chosen by the same test as the list that stores the variable; '
         'one internal variable per class of connected variables (creation only after a complete equivalence search, and recorded); an equation lists all its unknown variables. '
         'The heart of the property - what each equation computes in the iterative check loop, the resulting classification, dependency wiring and independence of document order - quantifies over runtime fixpoints and is NOT decided; '
-        'a change there is invisible to this check.',
+        'a change there is invisible to this check. Added after seeding: the equations of a variable are gathered by a complete loop; analyser state is re-initialised per model (clause shared with C12).',
    note='Trusted: clang AST/CFG. Partial claim on purpose: the clauses are necessary conditions of "a valid AnalyserModel is well formed"; the classification clauses of C05 have no sound static argument in reach (see DESIGN.md section 4, C05).',
    ref='DESIGN.md section 4, C05 and section 6.8'),
  'C06': dict(
@@ -95,14 +95,14 @@ CLAIMED = {
    text='For every doEquals in the Entity hierarchy and every CFG path to a result that can be true: every attribute field of the class was read on this side, '
         'every direct base doEquals was consulted, getters called on the other object cover the same fields, every child collection has its size compared for equality, '
         'children are matched against direct children only, UnitDefinition fields all compared (doubles through areNearlyEqual), null/cast results tested. '
-        'Necessary conditions of "sees every attribute" and of symmetry; reflexivity/transitivity on values are not executed.',
+        'Necessary conditions of "sees every attribute" and of symmetry; reflexivity/transitivity on values are not executed. Added after round-2 seeding: one-to-one child matching keeps its candidates container across the outer loop; paired null tests address the same attribute on both sides.',
    note='Trusted: clang AST/CFG; getter-covers-field is computed from getter bodies. Known finding: variable counts are not compared (pinned by Equality.parseMath).',
    ref='DESIGN.md section 4, C10'),
  'C11': dict(
    technique='static analysis: read/write field coverage of clone() over the Impl hierarchy, deep-copy (no shared entity pointer) and id-carrying-API rules on the call graph',
    text='For every clone(): each attribute field of the Impl hierarchy (own and inherited, presence flags included) is read on the original and written on the copy through a method whose body writes that field; '
         'entity-typed values handed to the copy are clone()/create() results or belong to the copy; the copy gets no parent; Model::clone reaches an API that carries mapping/connection ids. '
-        'Necessary conditions of a faithful, independent copy; serialisation equality is not executed.',
+        'Necessary conditions of a faithful, independent copy; serialisation equality is not executed. Added after round-2 seeding: the helpers of Model::clone re-create every recorded equivalence (the call depends on null tests only).',
    note='Trusted: clang AST; setter-writes-field computed from setter bodies. Known finding: clones share the ImportSource (pinned by Clone.modelWithImportedItems). Three clone defects were repaired (fix commits).',
    ref='DESIGN.md section 4, C11'),
  'C12': dict(
@@ -116,48 +116,48 @@ CLAIMED = {
    technique='static analysis: must-precede (dominance) of the index refresh before any id generation over the call graph, id-kind set agreement between sibling traversals, control-dependence of setters on empty tests, must-pass bookkeeping',
    text='Every exported Annotator method from which an id can be generated refreshes the identifier index on every path before the first generation, and replacing the model invalidates the cached index; the six traversals that list, hash, '
         'assign, clear, print-reserve and validate identifiers visit the same thirteen id kinds; ids are assigned only under the matching empty test; each generated id is indexed before the next generation. '
-        'Necessary conditions of completeness, non-destructiveness and uniqueness; concrete id strings are not generated.',
+        'Necessary conditions of completeness, non-destructiveness and uniqueness; concrete id strings are not generated. Added after round-2 seeding: children read inside an index loop are read with that loop\'s index.',
    note='Trusted: clang AST/CFG/call graph; id kinds are recognised by getter/setter name and static receiver type. Two stale-index defects were replayed and repaired.',
    ref='DESIGN.md section 4, C13'),
  'C14': dict(
    technique='static analysis: path-sensitive issue-level dataflow keyed on the 1.x mode flag, dominance of the strict-mode gate, value-consulted and fresh-object-per-iteration rules over parser.cpp',
    text='In strict mode a non-2.0 root is refused with an error before any child is loaded; on every path from the creation of an issue to addIssue on which the parser is known to be in 1.x mode, sites shared with the 2.0 path carry Level::MESSAGE; '
         'legacy names are recognised in the 1.x branches; the 1.x interface attributes are read by value; every entity created while looping over XML children is created inside the iteration that adds it; 1.x MathML goes through the namespace rewrite. '
-        'Necessary conditions; equality with the equivalent 2.0 model is not executed.',
+        'Necessary conditions; equality with the equivalent 2.0 model is not executed. Added after round-2 seeding: flags gathered over XML children are only raised inside the loop.',
    note='Trusted: clang AST/CFG. The "none" interface defect was replayed and repaired.',
    ref='DESIGN.md section 4, C14'),
  'C16': dict(
    technique='static analysis: recogniser non-vacuity, grammar terminals read from the AST, exception-channel screening of std::sto*, use-site branch rules',
    text='Decides on all paths of the recognisers/conversions: no acceptance through std::all_of over an empty string; sign/digit/point/e-marker sets and count bounds equal the CellML grammar; '
         'every std::sto* call handles out_of_range and is screened by the recogniser of its kind here or in every caller; parser/validator use sites convert only on the accepting branch and add an issue on the rejecting one; '
-        'doubles are printed with digits10 precision by default. The accepted language is not enumerated by execution.',
+        'doubles are printed with digits10 precision by default. The accepted language is not enumerated by execution. Added after round-2 seeding: conversion primitives other than std::sto* (from_chars, strto*, ato*) are judged for their accepted language and error channel.',
    note='Trusted: C++ standard exception specification of std::sto*; recogniser-accepted text is convertible. Restructuring the recognisers (e.g. to a regex) makes anchors vanish: exit 2, not a verdict.',
    ref='DESIGN.md section 4, C16'),
  'C17': dict(
    technique='static analysis: stem-linked agreement of flag writer / getter / emitter, guard-set and argument agreement between sibling emitters (interface vs implementation) from CFG branch facts',
    text='For each of the 24 helper flags the analyser branch (MathML element, AST type), the AnalyserModel getter and the generator emitter agree by stem and guard; for every family with an interface and an implementation form both emitters '
         'run under the same model predicates with the same profile arguments; count placeholders are replaced by the model counts and info tables iterate full lists; both emitters return {} for missing/invalid models. '
-        'Necessary conditions of "declared exactly when defined" and "helpers emitted exactly when used"; generated code is not compiled.',
+        'Necessary conditions of "declared exactly when defined" and "helpers emitted exactly when used"; generated code is not compiled. Added after round-2 seeding: the kind of the model is consulted only through modelHasOdes()/modelHasNlas().',
    note='Trusted: clang AST/CFG; relies on the naming convention that ties need<X>Function, mNeed<X>Function, <x>FunctionString, Type::<X> and MathML <x> together (a rename makes anchors vanish: exit 2).',
    ref='DESIGN.md section 4, C17'),
  'C18': dict(
    technique='static analysis: type-level counting argument on the memo key, null-state dataflow, visited-set rule on the recursive search',
    text='The memo of AnalyserModel::areEquivalentVariables must be keyed injectively by both addresses (pair/tuple key or >=128 bits), decided from the field type and the dataflow of the key expression; '
-        'the utility null-tests its arguments; the recursive equivalence search carries, tests and extends a visited list before recursing. Whether a particular run collides is not observed.',
+        'the utility null-tests its arguments; the recursive equivalence search carries, tests and extends a visited list before recursing. Whether a particular run collides is not observed. Added after round-2 seeding: every verdict returned is the search result or a verdict stored for exactly this pair; const queries of Variable write no data member.',
    note='Trusted: clang types. The original defect (64-bit Cantor pairing) was replayed with controlled addresses and repaired (fix commits d93d680, fb127cf).',
    ref='DESIGN.md section 4, C18'),
  'C19': dict(
    technique='static analysis: predicate coverage, loop-direction rule for index-removing loops, branch-fact rules on the single interface definition, traversal completeness',
    text='Model::clean consults every attribute of the documented emptiness definitions and removes by index only in descending loops; the required interface has one definition shared by fixVariableInterfaces and the validator, '
         'reports failure for parentless/unrelated equivalences, and fixVariableInterfaces writes only where the current interface does not suffice, visits every variable and returns the accumulated verdict; linkUnits/hasUnlinkedUnits visit the whole tree and exempt exactly standard units. '
-        'Necessary conditions; the post-conditions are not executed against the validator.',
+        'Necessary conditions; the post-conditions are not executed against the validator. Added after round-2 seeding: permitsInterfaceType compares whole strings.',
    note='Trusted: clang AST/CFG; the documented definition of "empty" in model.h.',
    ref='DESIGN.md section 4, C19'),
  'C20': dict(
    technique='static analysis: path rule on issue levels, null-state rules, dataflow rule on user-supplied dependencies, paired-update rule on the analysis loop state, ordering rules on the code generator',
    text='The three external-variable diagnostics are messages on every path; null external variables / variables are refused or skipped; user-supplied dependencies are translated to their primary variable before they are stored; '
         'the pass counter and the NLA-mode flag of the analysis loop advance together; generated code emits all dependencies before an equation, removes it from the work list before recursing and reads external values only through the callback string. '
-        'Necessary conditions; which variables become external, NLA pruning and run-time values are not decided.',
+        'Necessary conditions; which variables become external, NLA pruning and run-time values are not decided. Added after round-2 seeding: hasExternalVariables derives from this model\'s internal variables; isStateRateBased marks an equation before descending; the variable of integration is unmarked where it is reported as unusable.',
    note='Trusted: clang AST/CFG. The paired-update rule (A1) is specific to the present shape of the analysis loop: if the loop is restructured its anchors vanish (exit 2). One crash defect (null external variable) was repaired.',
    ref='DESIGN.md section 4, C20'),
 }
